@@ -142,11 +142,16 @@ def run(ctx) -> None:
                 return True
         return False
 
-    ok = raises_under(vs, "notin") and "node.targets" in src(vs.node)
+    from .common import param_bound_to
+
+    d_vm = param_bound_to(db, vd, vm, "decision", "decision")
+    d_v1 = param_bound_to(db, vd, v1, "decision", "decision")
+    n_vs = param_bound_to(db, vm, vs, "node", None) or param_bound_to(db, v1, vs, "node", "node")
+    ok = raises_under(vs, "notin") and f"{n_vs}.targets" in src(vs.node)
     rep.add("C03.R2", f"{vs.qname}:membership", ok, vs.loc(), "a target outside node.targets raises" if ok else "a decision naming a target outside node.targets is no longer rejected")
-    ok = raises_under(vm, "notisinstance(decision,list)") and any(vs in [c.func for c in db.resolve_call(x, vm)] for x in db.calls_in(vm))
+    ok = raises_under(vm, f"notisinstance({d_vm},list)") and any(vs in [c.func for c in db.resolve_call(x, vm)] for x in db.calls_in(vm))
     rep.add("C03.R2", f"{vm.qname}:list-of-targets", ok, vm.loc(), "multi-target: non-list raises, every element is validated" if ok else "multi-target validator does not reject non-lists or skips element validation")
-    ok = raises_under(v1, "isinstance(decision,list)") and any(vs in [c.func for c in db.resolve_call(x, v1)] for x in db.calls_in(v1))
+    ok = raises_under(v1, f"isinstance({d_v1},list)") and any(vs in [c.func for c in db.resolve_call(x, v1)] for x in db.calls_in(v1))
     rep.add("C03.R2", f"{v1.qname}:single-target", ok, v1.loc(), "single-target: list raises, target is validated" if ok else "single-target validator does not reject lists or skips target validation")
     disp = {c.func for x in db.calls_in(vd) for c in db.resolve_call(x, vd)}
     ok = vm in disp and v1 in disp and any(isinstance(n, ast.If) and "multi_target" in src(n.test) for n in walk_local(vd.node))
@@ -241,8 +246,10 @@ def run(ctx) -> None:
     rep.add("C03.R4", f"{gan.qname}:clear-before-activation", ok, gan.loc(), "stale decisions are cleared before any decision is read for activation" if ok else "activation can read routing decisions before stale ones were cleared (targets start on an outdated decision)")
     act = db.func("runners._shared.helpers._is_node_activated_by_decision")
     acfg = ctx.cfg(act)
-    live_end = reachable(acfg.entry, specialize({"decision is END": True}))
-    live_none = reachable(acfg.entry, specialize({"decision is END": False, "decision is None": True}))
+    # the decision parameter is the one the function compares with END
+    d_act = next((a.left.id for t in acfg.nodes if t.kind == "test" and t.ast is not None for a in test_atoms(t.ast) if isinstance(a, ast.Compare) and isinstance(a.left, ast.Name) and len(a.ops) == 1 and isinstance(a.ops[0], ast.Is) and src(a.comparators[0]) == "END"), "decision")
+    live_end = reachable(acfg.entry, specialize({f"{d_act} is END": True}))
+    live_none = reachable(acfg.entry, specialize({f"{d_act} is END": False, f"{d_act} is None": True}))
 
     def only_false(live) -> bool:
         rets_ = [n for n in live if n.kind == "stmt" and isinstance(n.ast, ast.Return)]
